@@ -493,7 +493,7 @@ int main() {
 
 MANIFEST = {
     "category": "proof",
-    "text": "Unbounded proof over all 2^31-2 generator states and all 64-bit seeds: every function of SimpleRandom.h is extracted with nothing dropped and verified by CBMC against the Park-Miller certificate, closure, purity, draw range/order, constructor normalisation and the library's call-site seed forms, under LP64, LLP64 and ILP32. random_vec advances the OBJECT's state by exactly one step per element (ghost step counter on the state word).",
+    "text": "Unbounded proof over all 2^31-2 generator states and all 64-bit seeds: every function of SimpleRandom.h is extracted with nothing dropped and verified by CBMC against the Park-Miller certificate, closure, purity, draw range/order, constructor normalisation and the library's call-site seed forms, under LP64, LLP64 and ILP32. random_vec advances the OBJECT's state by exactly one step per element (ghost step counter on the state word). Third session: free helper functions called by next_long_rand are extracted and verified with it.",
     "note": "trusted: CBMC 6.11 + kissat/cadical, z3 (one linear-integer bridging lemma, mathematical integers), the extractor "
             "(cross-checked natively against the real function), CBMC's long double model; Euclidean-division uniqueness is a stated mathematical step",
     "technique": "CBMC code contracts / full-domain loop-free harnesses on mechanically extracted C (SAT: kissat, cadical; z3 lemma)",
